@@ -1,6 +1,7 @@
 import GdcVerif.Model.JpegAddr
 import GdcVerif.Lemmas.JpegAddr
 import GdcVerif.Lemmas.JpegAddrFull
+import GdcVerif.Lemmas.JpegAddrNI
 import GdcVerif.Lemmas.JpegAc
 import GdcVerif.Lemmas.JpegDri
 import GdcVerif.Lemmas.JpegScan
@@ -16,8 +17,14 @@ import GdcVerif.Lemmas.JpegScan
     baseline.Decode by `jpg-cellmap`).  The pre-fix model is kept as `shownOld` with its witness
     (regression anchor: `c15_block_alias_regression`).
   * `c15_restart_intervals`: the scan collection cuts the entropy-coded data exactly at the RSTn markers (and
-    nowhere else), without DRI behaves as before, and the MCU loop switches interval / resets the DC predictors
-    exactly before MCUs Ri, 2Ri, … (T.81 E.1.4).
+    nowhere else) — whatever number of 0xFF fill bytes precedes the marker (T.81 B.1.1.2; since fix
+    PENDING:c15-fill-bytes-before-marker) —, without DRI behaves as before, and the MCU loop switches interval / resets
+    the DC predictors exactly before MCUs Ri, 2Ri, … (T.81 E.1.4).
+  * `c15_grey_factors_ignored` (since fix PENDING:c15-grey-sampling-factors): a single-component frame is decoded with
+    factors 1×1 whatever its header declares; every pixel shows the data unit of the raster order (T.81 A.2.3).
+  * `c15_addressing_noninterleaved` (since fix PENDING:c15-noninterleaved-scans): a component coded in a scan of its own
+    is walked over its own ⌈xi/8⌉ × ⌈yi/8⌉ grid, which fits the component buffer, and every pixel shows the data unit
+    T.81 A.2.3 designates — every frame size and every factor.
   * `c15_ac_runlength_roundtrip`: the decoder's AC run/size loop inverts the encoder's for every coefficient block
     (symbol level; tied to baseline.Decode by `jpg-acblock`, to the reference encoder by `jpg-acsyms`).
   * `baseline_scan_symbols_roundtrip`: block order, DC prediction and run-length coding round-trip at the symbol level
@@ -70,30 +77,73 @@ theorem c15_block_alias_regression :
     shownOld witness c 0 8 = 5 ∧ specOrdinal witness c 0 8 = 2 ∧ shown witness c 0 8 = 2 := by decide
 example : validFrame witness = true ∧ (walk witness ⟨2, 2⟩).length = 8 ∧ shown witness ⟨1, 1⟩ 16 15 = 1 := by decide
 
-/-- (2) restart intervals: for entropy-coded data `pre` in which every FF is stuffed,
-    * `pre ++ RSTk ++ rest` closes the current interval with exactly `cur ++ pre` and starts an empty one;
-    * `pre ++ (any other marker)` ends the scan with `cur ++ pre` as the last interval;
-    * without DRI the joined intervals are the pre-fix scan filter (RSTn dropped, nothing else);
+/-- (2) restart intervals: for entropy-coded data `pre` in which every FF is stuffed, and ANY number `n` of 0xFF fill
+    bytes in front of the marker (T.81 B.1.1.2),
+    * `pre ++ FF ++ fill ++ RSTk ++ rest` closes the current interval with exactly `cur ++ pre` and starts an empty one;
+    * `pre ++ FF ++ fill ++ m` for any other marker code `m` (not 00, not FF, not RSTn) ends the scan with `cur ++ pre`
+      as the last interval;
+    * without DRI the joined intervals are the scan filter (RSTn and fill bytes dropped, nothing else);
     * MCU n (0-based) is decoded from interval ⌊n/Ri⌋ and the DC predictors are reset exactly when Ri | n, n > 0 -/
-theorem c15_restart_intervals (pre rest cur : List Nat) (acc : List (List Nat)) (k : Nat) (hk : k < 8)
-    (hw : wellStuffed pre = true) (hne : ∀ b ∈ pre.getLast?, b ≠ 0xFF) :
-    scanSplitAux (pre ++ 0xFF :: (0xD0 + k) :: rest) cur acc = scanSplitAux rest [] (acc ++ [cur ++ pre]) ∧
-    scanSplitAux (pre ++ 0xFF :: 0xD9 :: rest) cur acc = acc ++ [cur ++ pre] ∧
+theorem c15_restart_intervals (pre rest cur : List Nat) (acc : List (List Nat)) (k n m : Nat) (hk : k < 8)
+    (hw : wellStuffed pre = true) (hne : ∀ b ∈ pre.getLast?, b ≠ 0xFF)
+    (hm : m ≠ 0 ∧ m ≠ 0xFF ∧ isRST m = false) :
+    scanSplitAux (pre ++ 0xFF :: (List.replicate n 0xFF ++ (0xD0 + k) :: rest)) cur acc
+      = scanSplitAux rest [] (acc ++ [cur ++ pre]) ∧
+    scanSplitAux (pre ++ 0xFF :: (List.replicate n 0xFF ++ m :: rest)) cur acc = acc ++ [cur ++ pre] ∧
     (∀ s, scanIntervals 0 s = [scanFilter s]) ∧
     (∀ ri n, 0 < ri → (mcuInterval ri n).1 = n / ri ∧ ((mcuInterval ri n).2 = true ↔ (0 < n ∧ n % ri = 0))) := by
   have h1 : isRST (0xD0 + k) = true := by simp [isRST]; omega
   have h2 : ¬ (0xD0 + k = 0) := by omega
+  have h3 : ¬ (0xD0 + k = 0xFF) := by omega
   refine ⟨?_, ?_, ?_, fun ri n h => mcuInterval_spec ri h n⟩
-  · rw [scanSplit_prefix pre _ cur acc hw hne (by simp)]
-    rw [scanSplitAux]; simp only [if_true, h2, if_false, h1]
-  · rw [scanSplit_prefix pre _ cur acc hw hne (by simp)]
-    rw [scanSplitAux]; simp [isRST]
+  · rw [scanSplit_prefix pre _ cur acc hw hne]
+    simp only [scanSplitAux]
+    rw [scanSplitGo, if_pos rfl, scanSplitGo_fill, scanSplitGo, if_neg h3, if_neg h2, if_pos h1]
+  · rw [scanSplit_prefix pre _ cur acc hw hne]
+    simp only [scanSplitAux]
+    rw [scanSplitGo, if_pos rfl, scanSplitGo_fill, scanSplitGo, if_neg hm.2.1, if_neg hm.1]
+    simp [hm.2.2]
   · intro s
     simp only [scanIntervals, if_true]
     rw [scanSplit_flatten]; simp
 example : scanIntervals 2 [0x12, 0xFF, 0x00, 0x34, 0xFF, 0xD3, 0x56, 0xFF, 0xD9, 0x99] = [[0x12, 0xFF, 0x00, 0x34], [0x56]] ∧
     scanIntervals 0 [0x12, 0xFF, 0x00, 0x34, 0xFF, 0xD3, 0x56, 0xFF, 0xD9, 0x99] = [[0x12, 0xFF, 0x00, 0x34, 0x56]] ∧
     mcuInterval 3 7 = (2, false) ∧ mcuInterval 3 6 = (2, true) := by decide
+/-- regression anchor of finding c15h-baseline-fill-bytes-before-marker: `FF FF D3` is a restart marker preceded by one
+    fill byte (before the fix the scan ended there and the interval `56` was lost); fill bytes before EOI; a trailing
+    run of FF at the end of the data keeps one FF -/
+example : scanIntervals 2 [0x12, 0xFF, 0xFF, 0xD3, 0x56, 0xFF, 0xFF, 0xFF, 0xD9, 0x99] = [[0x12], [0x56]] ∧
+    scanIntervals 0 [0x12, 0xFF, 0xFF, 0xD3, 0x56, 0xFF, 0xFF, 0xD9] = [[0x12, 0x56]] ∧
+    scanIntervals 1 [0x12, 0xFF, 0xFF, 0xFF] = [[0x12, 0xFF]] ∧
+    wellStuffed [0x12, 0xFF, 0x00, 0x34] = true ∧ (0xDA ≠ 0 ∧ 0xDA ≠ 0xFF ∧ isRST 0xDA = false) := by decide
+
+/-- (3) single-component frames (since fix PENDING:c15-grey-sampling-factors): whatever sampling factors the frame
+    header declares for the only component, the decoder works with 1×1 (`parsedFrame`) and every pixel shows the data
+    unit of the raster order over ⌈w/8⌉ columns — a scan with one component is never interleaved (T.81 A.2.3) -/
+theorem c15_grey_factors_ignored (w h : Nat) (c : Comp) (x y : Nat) (hx : x < w) (hy : y < h) :
+    parsedFrame { w := w, h := h, comps := [c] } = { w := w, h := h, comps := [⟨1, 1⟩] } ∧
+    shown (parsedFrame { w := w, h := h, comps := [c] }) ⟨1, 1⟩ x y = ((y / 8 * divCeil w 8 + x / 8 : Nat) : Int) :=
+  grey_shown w h c x y hx hy
+/-- the hunters' witness geometry: 24×16, factors 2×2 — pixel (17, 9) shows data unit 1·3 + 2 = 5; read with the declared
+    factors (the pre-fix behaviour) the same pixel shows data unit 6 of a 2×2-block MCU walk -/
+example : shown (parsedFrame { w := 24, h := 16, comps := [⟨2, 2⟩] }) ⟨1, 1⟩ 17 9 = 5 ∧
+    shown { w := 24, h := 16, comps := [⟨2, 2⟩] } ⟨2, 2⟩ 17 9 = 6 ∧
+    validFrame { w := 24, h := 16, comps := [⟨2, 2⟩] } = true := by decide
+
+/-- (4) non-interleaved scans (since fix PENDING:c15-noninterleaved-scans): a component coded in a scan of its own is
+    walked in raster order over `niCols × niRows` = ⌈xi/8⌉ × ⌈yi/8⌉ data units (xi = ⌈X·Hi/Hmax⌉, yi = ⌈Y·Vi/Vmax⌉),
+    this grid lies inside the component buffer parseSOF allocated, and every pixel shows the data unit T.81 A.2.3
+    designates — no hypothesis on the frame size or the factors -/
+theorem c15_addressing_noninterleaved (f : Frame) (c : Comp) (hH : 0 < c.H) (hV : 0 < c.V)
+    (x y : Nat) (hx : x < f.w) (hy : y < f.h) :
+    shownNI f c x y = (specOrdinalNI f c x y : Int) ∧
+    niCols f c ≤ compWidth f c ∧ niRows f c ≤ compHeight f c ∧
+    (walkNI f c).length = niRows f c * niCols f c :=
+  ⟨shownNI_eq_spec f c hH hV x y hx hy, niCols_le f c, niRows_le f c, walkNI_length f c⟩
+/-- 17×16 4:2:0: luma scan 3×2 data units (the interleaved walk has 8), chroma scans 2×1; pixel (16, 9) of Y shows data
+    unit 1·3 + 2 = 5 in its own scan and 2·4… = 6 in the interleaved walk -/
+example : niCols witness ⟨2, 2⟩ = 3 ∧ niRows witness ⟨2, 2⟩ = 2 ∧ niCols witness ⟨1, 1⟩ = 2 ∧ niRows witness ⟨1, 1⟩ = 1 ∧
+    shownNI witness ⟨2, 2⟩ 16 9 = 5 ∧ shown witness ⟨2, 2⟩ 16 9 = 6 ∧ shownNI witness ⟨1, 1⟩ 16 15 = 1 := by decide
 
 /-- (2') the restart interval parseDRI stores (GENERATED right-hand side of `d.restartInt = …`; go2lean gives a shift
     whose left operand is a byte the 8-bit wrap Go gives it) is the 16-bit big-endian value Ri of T.81 B.2.4.4 for every
